@@ -173,6 +173,7 @@ EXTRA = {
            "an absolute arc accuracy of 1e-11.",
     "C07": " The predicate q_in_upper_sphere (behind get_upper_indices, the Voronoi half selection and the polytope half) is itself monitored "
            "(first non-zero coordinate positive) on hostile vectors and on every call the grids make.",
+    "C09": " One grid of the quick tier (four of the thorough tier) has more than 2^16 rows with a rotation count that is not a power of two.",
     "C10": " A third of the generated gro/pdb molecules consist of two residues / two chains (segments).",
     "C12": " The model's input is the trajectory handed to the MSM constructor (recorded there), not what the object kept of it.",
     "C16": " Negative distances are driven through lists, linspace (either end point) and range/arange (negative start, or a descending range "
